@@ -226,6 +226,39 @@ theorem lift1_single_clean (ref : Seq) (v : Var) (b : Blk) (st : Strand) (hv : v
       have hgt : ¬ (ib.2 > (altSeq1 0 ref v).length) := by rw [this]; omega
       simp only [reparent, hgt, if_false, pure, Except.pure]
 
+/-- the answer of T3b passes the specification's checker `okLift` (strand, normalised blocks, bases read) -/
+theorem lift1_single_verdict (ref : Seq) (v : Var) (b ib : Blk) (st : Strand) (hst : st ≠ .unstranded)
+    (hv : v.s < v.e) (hvn : v.e ≤ ref.length) (hb : b.1 < b.2) (hbn : b.2 ≤ ref.length) (hc : Clean v b)
+    (hne : nonEmpty (imageBlock ref [toEdit 0 v] b) = some ib) :
+    okLift ref [toEdit 0 v] st [b] (some (some ⟨st, [ib], onStrand st (slice (altSeq1 0 ref v) ib)⟩)) = .pass := by
+  have hib : ib = imageBlock ref [toEdit 0 v] b ∧ ib.1 < ib.2 := by
+    unfold nonEmpty at hne; split at hne
+    · rename_i h; have := (Option.some.inj hne).symm; exact ⟨this, by rw [this]; exact h⟩
+    · exact absurd hne (by simp)
+  have hvalid : validEdits ref.length [toEdit 0 v] = true := by
+    apply chain_valid; exact ⟨by simpa [toEdit] using hv, by simpa [toEdit] using hvn⟩
+  have hgood : goodBlocks ref.length [b] = true := by simp [goodBlocks, hb, hbn]
+  have hclean : cleanEdits [toEdit 0 v] [b] = true := by
+    simp only [cleanEdits, insideOne, outsideAll, toEdit, Nat.sub_zero, List.all_cons, List.all_nil, List.any_cons,
+      List.any_nil, Bool.or_false, Bool.and_true, Bool.or_eq_true, Bool.and_eq_true, decide_eq_true_eq]
+    rcases hc with h | h | h
+    · exact Or.inl h
+    · exact Or.inr (Or.inl h)
+    · exact Or.inr (Or.inr h)
+  have hnorm : ∀ x : Blk, x.1 < x.2 → normBlocks [x] = [x] := by
+    intro x hx
+    have : ¬ (x.1 ≥ x.2) := by omega
+    simp [normBlocks, this]
+  have hseq : slice (altSeq1 0 ref v) ib = image ref [toEdit 0 v] b.1 b.2 := by
+    rw [hib.1]; exact block_reads_image ref v b hv hvn (Nat.le_of_lt hb) hbn
+  have halt := altSeq1_altOf 0 ref v (by simpa using hv) (by simpa using hvn)
+  unfold okLift
+  simp only [hvalid, hgood, hclean, Bool.not_true, Bool.false_or, List.isEmpty_cons, Bool.or_false, hst, if_false,
+    if_true, List.map_cons, List.map_nil, decide_false, ← hib.1, hnorm ib hib.2, imageSeq, extractSeq,
+    List.flatMap_cons, List.flatMap_nil, List.append_nil, hseq, ← halt]
+  have : (List.drop ib.1 (altSeq1 0 ref v)).take (ib.2 - ib.1) = image ref [toEdit 0 v] b.1 b.2 := hseq
+  simp [this]
+
 /-! ### collections: variants that keep the length are transparent -/
 
 theorem kernel_same_length (u : Var) (b : Blk) (st : Strand) (hu : (u.alt.length : Int) - ((u.e : Int) - (u.s : Int)) = 0)
